@@ -2321,3 +2321,36 @@ func ruleR222(c *Ctx) {
 		c.Missing("boundary event lookup", "no call of BoundaryEvents() was found in the engine package")
 	}
 }
+
+// ---- R223 (states F19's repaired shape) ----
+
+func init() {
+	register(&Rule{ID: "R223", Title: "a token's request can be abandoned: in every NextAction the post into the node's mailbox is a clause of a select that also watches the token's context", Min: 10, Run: ruleR223})
+}
+
+func ruleR223(c *Ctx) {
+	p := c.P
+	what := "NextAction is called in the header of the token's select, before the select can observe anything. A mailbox has room for 2n+1 requests; after a cancellation the node's loop may have left without draining it, and when more tokens than that are on their way to the node the next plain send blocks for ever — the token keeps its sender handle and the tracers never terminate"
+	ce := chanEngine(p)
+	n := 0
+	for _, op := range ce.Ops {
+		if op.Kind != OpSend || !isMailboxChan(op.Type) {
+			continue
+		}
+		f := op.Func
+		if f.Root().Obj == nil || f.Root().Obj.Name() != "NextAction" || f.Pkg.PkgPath != pathBpmn {
+			continue
+		}
+		n++
+		guarded := false
+		if op.Select != nil {
+			if ok, how := ce.selectGuard(op); ok && how != "select with default" {
+				guarded = true
+			}
+		}
+		c.Check(guarded, f, op.Node, "post of the token's request in "+f.Root().QName(), what, ifElse(guarded, "a clause of a select with a done-source", "a plain send"))
+	}
+	if n == 0 {
+		c.Missing("request posts", "no send into a mailbox in a NextAction method was found")
+	}
+}
